@@ -484,6 +484,10 @@ converter.register_unstructure_hook({class_name}, _unstructure_{class_name.lower
 
                 # Sanitize the property name for use as a Python attribute
                 field_name = NameSanitizer.sanitize_method_name(prop_name)
+                # An attribute named `field` would shadow dataclasses.field for the defaults that follow it in the
+                # class body; it gets the suffix of the reserved names (the API name is kept in the field mapping)
+                if field_name == "field":
+                    field_name += "_"
 
                 # Collision detection: check if this sanitized name was already used
                 if field_name in seen_field_names:
